@@ -230,6 +230,9 @@ func genC10(g *Gen) error {
 	if err := genC10Bytes(g); err != nil {
 		return err
 	}
+	if err := genC10TF(g); err != nil {
+		return err
+	}
 	g.Footer()
 	return nil
 }
